@@ -100,6 +100,9 @@ static void body(void) {
 		char bn[64]; snprintf(bn, sizeof bn, "%s-%s-L%d", tlcp ? "tlcp" : "tls", role ? "client" : "server", L); if (!vh_block_begin(bn)) continue;
 		static devn_t M[400]; int nm = menu(L, tlcp, M);
 		for (int a = 0; a < nm; a++) { if (!vh_next()) continue; chain_t ch; canonical(&ch, L, role, tlcp); apply(&ch, M[a]); devn_t d1[1] = { M[a] }; run_case(&ch, d1, 1);
+			/* quick tier: the pairs that touch one LINK of the chain from both ends - a defect of the issuer's constraints (pathLen absent / other values, basicConstraints forms, keyUsage) together with a defect
+			   of the signature or issuer name of the certificate directly below it: a verifier that skips the link check under some shape of the issuer shows here */
+			if (!vh_thorough && a > 0 && M[a].pos >= 1 && M[a].kind >= K_BC_ABSENT && M[a].kind <= K_KU_NONCRIT) for (int b = 1; b < nm; b++) { if (M[b].pos != M[a].pos - 1 || !(M[b].kind == K_SIG_FLIP || M[b].kind == K_SIG_OTHERKEY || M[b].kind == K_ISSUER_MISMATCH || M[b].kind == K_ISSUER_LASTCHAR)) continue; canonical(&ch, L, role, tlcp); apply(&ch, M[a]); apply(&ch, M[b]); devn_t d2[2] = { M[a], M[b] }; run_case(&ch, d2, 2); }
 			if (vh_thorough && a > 0) for (int b = a + 1; b < nm; b++) { if (M[b].pos == M[a].pos && M[b].pos != -2 && ((M[a].kind <= K_BC_TRUE) == (M[b].kind <= K_BC_TRUE)) && M[a].kind <= K_PL_LESS && M[b].kind <= K_PL_LESS && (M[a].kind <= K_BC_TRUE) ) continue; canonical(&ch, L, role, tlcp); apply(&ch, M[a]); apply(&ch, M[b]); devn_t d2[2] = { M[a], M[b] }; run_case(&ch, d2, 2); } }
 	}
 }
